@@ -721,6 +721,33 @@ func runC03(c *Ctx) {
 					}))
 					return okL
 				}, 0, true)
+				isLenOfData := func(v ssa.Value) bool {
+					okL, _ := allOrigins(v, oCallWhere(-1, "builtin len", func(lc *ssa.Call) bool {
+						okk, _ := allOrigins(lc.Call.Args[0], oIsValue(data))
+						return okk
+					}))
+					return okL
+				}
+				noItemsOrd := func(cond ssa.Value, branch bool) bool {
+					// sz > 0 false, sz >= 1 false, sz < 1 true, sz <= 0 true (a length is never negative)
+					cnd, b := stripNot(cond, branch)
+					bo, isBo := cnd.(*ssa.BinOp)
+					if !isBo || !isLenOfData(bo.X) {
+						return false
+					}
+					k, isK := constInt(bo.Y)
+					if !isK {
+						return false
+					}
+					switch {
+					case bo.Op == token.GTR && k == 0, bo.Op == token.GEQ && k == 1:
+						return !b
+					case bo.Op == token.LSS && k == 1, bo.Op == token.LEQ && k == 0:
+						return b
+					}
+					return false
+				}
+				noItems = anyFact(noItems, noItemsOrd)
 				c.obI("R03.7", ci, "default-applies-when-no-items", guardedBy(ci, nil, noItems), "the array default is stored exactly when len(data) == 0", "the default is applied under another condition than `no items` (a parameter sent with an empty value binds an empty array instead of its default)")
 			}
 		}
